@@ -8,7 +8,8 @@ import CifModel.Model.HeapClone
   two interpretations:
     * `stepH` / `runH` on the HEAP model (Model/Heap, Model/HeapClone): explicit blocks, malloc / free, the caller's objects
       given by address — this is what family `valheap` executes against the C library (Driver/Fam/Valheap.lean calls
-      `stepC` = `stepH` + tabulation of the cell map, operation by operation, i.e. `traceH`);
+      `stepC` = `stepH` + tabulation of the cell map, operation by operation, i.e. `traceH`); `stepH? fuel` is the same with the
+      fuel of the pointer-following functions as a parameter, `stepH` computes it from the heap (`fuelOf`);
     * `stepP` / `runP` on immutable values (`V`), the pure reading of the same history — compared with the C library (and
       with the older hand-written interpreter) by family `val`.
   Lemmas/HeapHist*.lean prove that every state `runH` reaches from the empty heap is well-formed and represents the
@@ -411,6 +412,11 @@ def freeKey (k : Nat) : Option HState → Option HState
   | some s2 => (free s2.h k).map (fun h' => { s2 with h := h' })
   | none => none
 
+/-- fuel for the pointer-following heap functions (`cleanVal`, `cloneH`), computed from the heap: more than any value
+    represented in `h` — or in a heap whose bump pointer is at most two blocks further — needs (Lemmas/HeapHistFuel.lean:
+    a footprint lists each block once and lies below the bump pointer) -/
+def fuelOf (h : Heap) : Nat := 3 * h.next + 9
+
 /-- `build_value` for a list: successive `cif_value_insert_element_at(list, n, x)` at the end -/
 def apiBuildList (h : Heap) (a : Nat) : List V → Nat → Option Heap
   | [], _ => some h
@@ -426,27 +432,27 @@ def apiBuildList (h : Heap) (a : Nat) : List V → Nat → Option Heap
     | none => none
 
 /-- `build_value` for a table: successive `cif_value_set_item_by_key` -/
-def apiBuildTable (fuel : Nat) (h : Heap) (a : Nat) : List (Str × Str × V) → Option Heap
+def apiBuildTable (h : Heap) (a : Nat) : List (Str × Str × V) → Option Heap
   | [] => some h
   | (k, ko, x) :: es =>
     match getHV h a with
     | some (.tbl ents) =>
-      match mapSetItemH fuel h ents k ko (some x) with
+      match mapSetItemH (fuelOf h) h ents k ko (some x) with
       | some (ents', h1) =>
         match putHV h1 a (.tbl ents') with
-        | some h2 => apiBuildTable fuel (compact h2) a es
+        | some h2 => apiBuildTable (compact h2) a es
         | none => none
       | none => none
     | _ => none
 
-def apiBuild (fuel : Nat) (h : Heap) (v : V) : Option (Nat × Heap) :=
+def apiBuild (h : Heap) (v : V) : Option (Nat × Heap) :=
   match v with
   | .lst vs =>
     match alloc h (.val (.lst none 0)) with
     | (a, h1) => (apiBuildList h1 a vs 0).map (fun g => (a, g))
   | .tbl es =>
     match alloc h (.val (.tbl [])) with
-    | (a, h1) => (apiBuildTable fuel h1 a es).map (fun g => (a, g))
+    | (a, h1) => (apiBuildTable h1 a es).map (fun g => (a, g))
   | _ => some (buildNew h v)
 
 /-- `cif_map_set_item`, key not present: the normalised key (allocated by the normaliser), a copy of the key as given, a copy
@@ -470,7 +476,7 @@ def stepH? (fuel : Nat) (s : HState) : HOp → Option HState
     else none
   | .bld i v =>
     if (Root.val i).ok && (s.slot (.val i)).isNone then
-      (apiBuild fuel s.h v).map (fun r => { (setSlot s (.val i) (some r.1)) with h := r.2 })
+      (apiBuild s.h v).map (fun r => { (setSlot s (.val i) (some r.1)) with h := r.2 })
     else none
   | .free i =>
     match s.slot (.val i) with
@@ -614,21 +620,22 @@ def stepH? (fuel : Nat) (s : HState) : HOp → Option HState
     | some pa => (packetFreeH fuel s.h pa).map (fun h' => { (setSlot s (.pkt i) none) with h := h' })
     | none => none
 
-def stepH (fuel : Nat) (s : HState) (op : HOp) : HState := (stepH? fuel s op).getD s
+/-- one operation; the fuel of the pointer-following functions is computed from the heap (`fuelOf`) -/
+def stepH (s : HState) (op : HOp) : HState := (stepH? (fuelOf s.h) s op).getD s
 
 /-- one operation as the driver executes it: `stepH`, then the cell map is tabulated -/
-def stepC (fuel : Nat) (s : HState) (op : HOp) : HState :=
-  let s' := stepH fuel s op
+def stepC (s : HState) (op : HOp) : HState :=
+  let s' := stepH s op
   { s' with h := compact s'.h }
 
-def runH (fuel : Nat) : List HOp → HState → HState
+def runH : List HOp → HState → HState
   | [], s => s
-  | op :: ops, s => runH fuel ops (stepC fuel s op)
+  | op :: ops, s => runH ops (stepC s op)
 
 /-- the states after each operation (what the driver prints its observations from) -/
-def traceH (fuel : Nat) : List HOp → HState → List HState
+def traceH : List HOp → HState → List HState
   | [], _ => []
-  | op :: ops, s => stepC fuel s op :: traceH fuel ops (stepC fuel s op)
+  | op :: ops, s => stepC s op :: traceH ops (stepC s op)
 
 /-- release every slot: `cif_value_free` of each value slot, `cif_packet_free` of each packet slot -/
 def releaseOne (fuel : Nat) (r : Root) (h : Heap) (a : Nat) : Option Heap :=
@@ -646,6 +653,6 @@ def releaseRoots (fuel : Nat) (s : HState) : List Root → Heap → Option Heap
       | some h' => releaseRoots fuel s rs h'
       | none => none
 
-def releaseAll (fuel : Nat) (s : HState) : Option Heap := releaseRoots fuel s allRoots s.h
+def releaseAll (s : HState) : Option Heap := releaseRoots (fuelOf s.h) s allRoots s.h
 
 end CifModel.Model.Hist
